@@ -24,7 +24,7 @@ ASSUMPTIONS = ["isolated-pixel removal is applied before pixel extension (the or
 NSHARDS = {"quick": 16, "thorough": 16}
 THRESHOLDS = {"quick": {**{f"c17:opts:{a}{b}{c}": 200 for a in "TF" for b in "TF" for c in "TF"}, "c17:images": 3000,
                         "c17:one-cell-solution": 50, "c17:two-cell-solution": 50, "c17:isolated-cells-present": 200,
-                        "c17:isolated-pixel-removed": 200, "c17:dataset-items": 300, "c17:batches": 60, "c17:batch-none": 10,
+                        "c17:isolated-pixel-removed": 200, "c17:dataset-items": 300, "c17:batches": 60, "c17:two-batches-held-together": 20, "c17:items-rejudged-after-refused-requests": 10, "c17:batch-none": 10,
                         "c17:batch-repeats": 10, "c17:from-generators": 300, "c17:subclass-instances": 100, "c17:items-overwritten-by-caller": 60, "c17:oblong": 40}}
 THRESHOLDS["thorough"] = dict(THRESHOLDS["quick"])
 ANCHORS = ["maze_dataset.dataset.rasterized:process_maze_rasterized_input_target", "maze_dataset.dataset.rasterized:_extend_pixels",
@@ -190,3 +190,38 @@ def run(ctx):
                         einp, etgt, ainp, atgt = exp_items[i]
                         cmp(ctx, batch[0, k], einp, ainp, "C17/batch/input-not-in-index-order", dict(c3, position=k))
                         cmp(ctx, batch[1, k], etgt, atgt, "C17/batch/target-not-in-index-order", dict(c3, position=k))
+                if n >= 2:
+                    # two batches of the same length held at the same time (a training step keeps the previous batch while the next
+                    # one is fetched): fetching the second may not change the first
+                    i1 = [int(x) for x in rng.permutation(n)]
+                    i2 = i1[::-1]
+                    b1 = rds.get_batch(i1)
+                    b2 = rds.get_batch(i2)
+                    ctx.tally("c17:two-batches-held-together")
+                    for tagb, bb, ii in (("first-after-second-was-fetched", b1, i1), ("second", b2, i2)):
+                        bb = np.asarray(bb)
+                        if ctx.check(bb.shape[:2] == (2, n), "C17/batch/wrong-shape", f"{bb.shape}", dict(case, idxs=ii)):
+                            for k, i in enumerate(ii):
+                                einp, etgt, ainp, atgt = exp_items[i]
+                                cmp(ctx, bb[0, k], einp, ainp, f"C17/batch/input-not-in-index-order/{tagb}", dict(case, idxs=ii, position=k))
+                                cmp(ctx, bb[1, k], etgt, atgt, f"C17/batch/target-not-in-index-order/{tagb}", dict(case, idxs=ii, position=k))
+                if n >= 1 and j % 2 == 1:
+                    # requests the dataset refuses (an index one past the end, a float index, an empty list), survived by the caller;
+                    # the items and batches asked for afterwards are judged as usual
+                    for bad in ([n], [0.5], [], [0, n + 3], "x"):
+                        try:
+                            rds.get_batch(bad)
+                            ctx.tally("c17:odd-batch-request-served(not judged)")
+                        except Exception:  # noqa: BLE001
+                            ctx.tally("c17:batch-request-refused")
+                        try:
+                            rds[n + 1]
+                        except Exception:  # noqa: BLE001
+                            pass
+                    ctx.tally("c17:items-rejudged-after-refused-requests")
+                    for i in range(n):
+                        einp, etgt, ainp, atgt = exp_items[i]
+                        item = np.asarray(rds[i])
+                        if ctx.check(item.shape == (2, *einp.shape), "C17/dataset-item/wrong-shape", f"after refused batch requests: {item.shape} expected {(2, *einp.shape)}", dict(case, index=i)):
+                            cmp(ctx, item[0], einp, ainp, "C17/dataset-item-after-refused-requests/input", dict(case, index=i))
+                            cmp(ctx, item[1], etgt, atgt, "C17/dataset-item-after-refused-requests/target", dict(case, index=i))
